@@ -5,6 +5,7 @@ Property theorems only; helper lemmas live in Proofs/Slice.lean.
 import TrimeshVerif.Proofs.Slice
 import TrimeshVerif.Proofs.SliceRat
 import TrimeshVerif.Proofs.SlicePieces
+import TrimeshVerif.Proofs.SectionLoops
 namespace TV.C11
 open TV.Mat3 TV.Affine TV.Remesh TV.Slice
 
@@ -147,5 +148,40 @@ theorem C11_rat_slice_oriented (tol : Rat) (htol : 0 ≤ tol) (n o : TV.Slice.V)
     ∀ piece ∈ keptTris t (sliceTri tol n o t), ∃ k : Rat, 0 ≤ k ∧ k ≤ 1 ∧
       TV.Slice.areaVecR piece = TV.Slice.smulV k (TV.Slice.areaVecR t) :=
   slice_pieces_oriented tol htol n o t hgen
+
+
+/-! ### the whole section: closed loops -/
+
+section loops
+open TV.Topology TV.SectionLoops
+
+/-- **a section of a closed surface in general position consists of closed loops**: give every vertex the
+    sign of its side of the plane (no vertex on the plane).  Then every triangle is crossed in none or exactly
+    two of its edges (it contributes no segment or one, joining those two edges; the triangles with two are
+    the ones the code's case table calls `basic`), and when every undirected edge lies in exactly two faces
+    every crossed edge is the end of exactly two segments - so following segments from edge to edge never
+    ends: the section is a disjoint union of closed polygons -/
+theorem C11_section_closed_loops (sgn : Nat → Int) (fs : List TV.Topology.Face) :
+    (∀ f ∈ fs, sgn f.1 ≠ 0 → sgn f.2.1 ≠ 0 → sgn f.2.2 ≠ 0 →
+        (segEdges sgn f).length = 0 ∨ (segEdges sgn f).length = 2) ∧
+    ((∀ e ∈ edgesSorted fs, (edgesSorted fs).count e = 2) →
+        ∀ e ∈ edgesSorted fs, (allSegEnds sgn fs).count e = if crossing sgn e then 2 else 0) :=
+  ⟨fun f _ h1 h2 h3 => segEdges_length sgn f h1 h2 h3, fun hc e he => seg_ends_twice sgn fs hc e he⟩
+
+/-- the triangles with a segment are the ones `mesh_plane`'s case table routes to its `basic` handler -/
+theorem C11_basic_iff_two_crossed (sgn : Nat → Int) (f : TV.Topology.Face)
+    (h1 : sgn f.1 = 1 ∨ sgn f.1 = -1) (h2 : sgn f.2.1 = 1 ∨ sgn f.2.1 = -1) (h3 : sgn f.2.2 = 1 ∨ sgn f.2.2 = -1) :
+    TV.Slice.isBasic (sgn f.1) (sgn f.2.1) (sgn f.2.2) = true ↔ (segEdges sgn f).length = 2 :=
+  isBasic_iff_two sgn f h1 h2 h3
+
+/-- non-vacuity: a tetrahedron cut between vertex 0 and the other three: three crossed edges, three
+    segments, every crossed edge an end of two of them -/
+example :
+    let fs : List TV.Topology.Face := [(0, 2, 1), (0, 1, 3), (1, 2, 3), (0, 3, 2)]
+    let sgn : Nat → Int := fun v => if v = 0 then 1 else -1
+    (∀ e ∈ edgesSorted fs, (edgesSorted fs).count e = 2) ∧
+    allSegEnds sgn fs = [(0, 2), (0, 1), (0, 1), (0, 3), (0, 3), (0, 2)] := by decide
+
+end loops
 
 end TV.C11
